@@ -1,2 +1,57 @@
-/-! Line driver for C05 (stub; replaced when the model is written). -/
-def main : IO Unit := pure ()
+import MpVerif.C05.Model
+import MpVerif.C14.Show
+/-! Line driver for C05.  No logic of its own: parses a solution, calls `writeSol` and
+`readSol` on the written bytes, prints both canonically.
+
+`sol <id> <fx> <nVars decl> <nCons decl> <msg hex> <opts i,i|-> <ncons> <nvars> <duals> <primals> <objno> <status> <sufs>`
+real ::= `<bits>/<token hex>[/Z]`   (bits are for the C++ side; Z = value is zero)
+reals ::= real,real,… | -       suf ::= `<kind>:<name hex>:<table hex>:<v,v,…|->`  (ints or reals by kind)   sufs ::= suf;suf;… | - -/
+open MpVerif.C14 MpVerif.C14.Show MpVerif.C05
+
+abbrev Tok := Bytes × Bool
+def tokCodec : Codec Tok := ⟨fun t => t.1, fun t => t.2⟩
+
+def parseReal (s : String) : Option Tok :=
+  match s.splitOn "/" with
+  | [_, t] => (unhex t).map (·, false)
+  | [_, t, "Z"] => (unhex t).map (·, true)
+  | _ => none
+
+def parseList {α : Type} (f : String → Option α) (sep : String) (s : String) : Option (List α) :=
+  if s = "-" then some [] else (s.splitOn sep).mapM f
+
+def parseSuf (s : String) : Option (Suf Tok) :=
+  match s.splitOn ":" with
+  | [k, n, t, vs] =>
+    match k.toNat?, unhex n, unhex t with
+    | some k, some n, some t =>
+      if isFloat k then (parseList parseReal "," vs).map (fun d => ⟨k, n, t, [], d⟩)
+      else (parseList String.toInt? "," vs).map (fun i => ⟨k, n, t, i, []⟩)
+    | _, _, _ => none
+  | _ => none
+
+def runCase (w : List String) : String :=
+  match w with
+  | ["sol", id, fx, nv, nc, msg, opts, ncons, nvars, duals, primals, objno, status, sufs] =>
+    match fx.toNat?, nv.toNat?, nc.toNat?, unhex msg, parseList String.toInt? "," opts, ncons.toNat?, nvars.toNat?,
+          parseList parseReal "," duals, parseList parseReal "," primals, objno.toInt?, status.toInt?, parseList parseSuf ";" sufs with
+    | some fx, some nv, some nc, some msg, some opts, some ncons, some nvars, some duals, some primals, some objno, some status, some sufs =>
+      let s : Sol Tok := ⟨msg, opts, ncons, nvars, duals, primals, objno, status, sufs⟩
+      let b := writeSol tokCodec s
+      let reals := duals ++ primals
+      let good := (reals.filter (fun t => goodNumB t.1)).length
+      let stoks := realEntryToks tokCodec sufs
+      let sgood := (stoks.filter goodSufTokB).length
+      s!"{id} good={good}/{reals.length} goodsuf={sgood}/{stoks.length} bytes={hex b} || {showResult (readSol (fx % 2 != 0) (fx / 2 % 2 != 0) nv nc ⟨0, .all, .all, .all⟩ b)}"
+    | _, _, _, _, _, _, _, _, _, _, _, _ => "bad-op"
+  | _ => "bad-op"
+
+partial def loop (h : IO.FS.Stream) (out : IO.FS.Stream) : IO Unit := do
+  let line ← h.getLine
+  if line.isEmpty then return ()
+  out.putStrLn (runCase (line.trimAscii.toString.splitOn " "))
+  loop h out
+
+def main : IO Unit := do
+  let out ← IO.getStdout
+  loop (← IO.getStdin) out
